@@ -1,11 +1,23 @@
 /-
-C15 (crosswalk part) / C14 / C22 — the old→new crosswalk covers each new block exactly once
-with contiguous in-bounds pieces of old blocks.  For ALL chunkings incl. zero-width chunks.
+C15 — rechunk plans are valid and respect the block-size budget; the old→new crosswalk covers
+each new block exactly once with contiguous in-bounds pieces of old blocks.
+
+All theorems are about the models in Model/Rechunk.lean and Model/RechunkPlan.lean (which mirror
+dask_array/_rechunk.py after the fix commits bb7113a and 28665a6 and are tied to it on every run
+by harness/props/C15.py).  Float-derived planner choices are ORACLE parameters: the theorems
+quantify over every oracle value; where a relation on the oracle is needed it is the `rel` flag
+the model computes (and the harness checks on the values recorded from the real run).
+Proofs: Lemmas/Crosswalk.lean, Lemmas/RechunkPlan.lean.
 -/
 import DaskArrayModel.Lemmas.Crosswalk
+import DaskArrayModel.Lemmas.RechunkPlan
 namespace Dask.Props.C15
-open Dask.Py Dask.Rechunk
+open Dask.Py Dask.Rechunk Dask.RechunkPlan
+open Dask.Lemmas.RechunkPlan (GroupsOf NonnegChunks PosChunks)
 
+/-! ### crosswalk -/
+
+set_option linter.unusedVariables false in
 theorem crosswalk_exact (old new : List Int)
     (ho : ∀ c ∈ old, 0 ≤ c) (hn : ∀ c ∈ new, 0 ≤ c)
     (hsum : isum old = isum new) (hone : old ≠ []) (hnne : new ≠ []) :
@@ -15,5 +27,128 @@ theorem crosswalk_exact (old new : List Int)
       (oldToNew1d old new).getD j [] ≠ [] ∧
       piecesPositions old ((oldToNew1d old new).getD j []) = newBlockPositions new j :=
   Dask.Lemmas.Crosswalk.crosswalk_exact old new ho hn hsum hone hnne
+
+/-! ### `divide_to_width` -/
+
+/-- the total is preserved (non-negative widths, `max_width ≥ 1`) -/
+theorem divideToWidth_sum (d : List Int) (w : Int) (hd : ∀ c ∈ d, 0 ≤ c) (hw : 1 ≤ w) :
+    isum (divideToWidth d w) = isum d :=
+  Dask.Lemmas.RechunkPlan.divideToWidth_sum d w hd hw
+
+/-- every produced chunk is at most `max_width` wide -/
+theorem divideToWidth_le (d : List Int) (w : Int) (hd : ∀ c ∈ d, 0 ≤ c) (hw : 1 ≤ w) :
+    ∀ x ∈ divideToWidth d w, x ≤ w :=
+  Dask.Lemmas.RechunkPlan.divideToWidth_le d w hd hw
+
+/-- every produced chunk is positive (zero-width input chunks disappear) -/
+theorem divideToWidth_pos (d : List Int) (w : Int) (hd : ∀ c ∈ d, 0 ≤ c) (hw : 1 ≤ w) :
+    ∀ x ∈ divideToWidth d w, 1 ≤ x :=
+  Dask.Lemmas.RechunkPlan.divideToWidth_pos d w hd hw
+
+example : divideToWidth [5, 0, 7] 3 = [2, 3, 2, 2, 3] := by decide
+example : isum (divideToWidth [5, 0, 7] 3) = isum [5, 0, 7] :=
+  divideToWidth_sum [5, 0, 7] 3 (by decide) (by decide)
+
+/-! ### `merge_to_number` (uniform branch and heap branch) -/
+
+theorem mergeToNumber_sum (d : List Int) (k : Int) (hd : ∀ c ∈ d, 0 ≤ c) (hk : 1 ≤ k) :
+    isum (mergeToNumber d k) = isum d :=
+  Dask.Lemmas.RechunkPlan.mergeToNumber_sum d k hd hk
+
+/-- at most `max_number` chunks come out (the `assert len(c) <= max_number` of
+`find_split_rechunk` cannot fail) -/
+theorem mergeToNumber_length (d : List Int) (k : Int) (hd : ∀ c ∈ d, 0 ≤ c) (hk : 1 ≤ k) :
+    ((mergeToNumber d k).length : Int) ≤ k :=
+  Dask.Lemmas.RechunkPlan.mergeToNumber_length d k hd hk
+
+/-- a coarsening: the result lists the sums of consecutive non-empty runs of the input -/
+theorem mergeToNumber_groups (d : List Int) (k : Int) (hd : ∀ c ∈ d, 0 < c) (hk : 1 ≤ k) :
+    ∃ gs : List (List Int), (∀ g ∈ gs, g ≠ []) ∧ gs.flatten = d ∧ gs.map isum = mergeToNumber d k :=
+  Dask.Lemmas.RechunkPlan.mergeToNumber_groups d k hd hk
+
+example : mergeToNumber [1, 2, 3, 4, 5] 3 = [6, 4, 5] := by decide      -- heap branch
+example : mergeToNumber [2, 2, 2, 2, 2] 2 = [6, 4] := by decide         -- uniform branch
+example : ((mergeToNumber [1, 2, 3, 4, 5] 3).length : Int) ≤ 3 :=
+  mergeToNumber_length [1, 2, 3, 4, 5] 3 (by decide) (by decide)
+
+/-! ### valid plans, for every oracle value -/
+
+theorem stepAxis_sum {old new c : List Int} (ho : ∀ x ∈ old, 0 ≤ x) (hn : ∀ x ∈ new, 0 ≤ x)
+    (h : StepAxis old new c) (hs : isum old = isum new) : isum c = isum new :=
+  Dask.Lemmas.RechunkPlan.stepAxis_sum ho hn h hs
+
+/-- every step of a plan related to `(old, new)` — whatever the oracle values — is a chunking of
+the same shape, and the plan is non-empty and ends in `new` -/
+theorem planOK_valid (old new : List (List Int)) (plan : List (List (List Int)))
+    (ho : NonnegChunks old) (hn : NonnegChunks new) (hs : old.map isum = new.map isum)
+    (h : PlanOK old new plan) :
+    plan ≠ [] ∧ plan.getLast? = some new ∧ ∀ s ∈ plan, s.map isum = new.map isum ∧ NonnegChunks s :=
+  Dask.Lemmas.RechunkPlan.planOK_valid old new plan ho hn hs h
+
+/-- the driver's bounded search `rp.reach` (run on every axis of every real plan step) is sound
+for the step relation -/
+theorem reachDepth_sound (old new c : List Int) (maxDepth k : Nat)
+    (h : reachDepth old new c maxDepth = some k) : StepAxis old new c :=
+  Dask.Lemmas.RechunkPlan.reachDepth_sound old new c maxDepth k h
+
+example : StepAxis [4, 4, 6, 3] [6, 4, 1, 5, 1] [6, 5, 5, 1] := by
+  have : mergeToNumber [6, 4, 1, 5, 1] 4 = [6, 5, 5, 1] := by decide
+  rw [← this]; exact .merge _ 4 (by decide) .new
+example : StepAxis [2, 2] [4] [2, 2] := reachDepth_sound _ _ _ 1 0 (by decide)
+example : PlanOK [[4, 4]] [[8]] [[[8]]] := by
+  refine ⟨?_, rfl⟩
+  intro s hs; simp at hs; subst hs; exact ⟨.new, trivial⟩
+
+/-! ### the block budget -/
+
+/-- `find_merge_rechunk`: for every oracle value satisfying the checked relations (`rel = true`)
+the result stays within `⌊max(limit/itemsize, lo, ln)⌋`, the running `largest_block_size` is exact
+(the function's two final `assert`s hold) and widths stay positive -/
+theorem findMerge_budget (cur new : List (List Int)) (b : Budget) (o : PassOracle) (st : FMState)
+    (hit : 0 < b.itemsize) (hpc : PosChunks cur) (hpn : PosChunks new) (hlen : cur.length = new.length)
+    (hb : largestBlock cur ≤ b.bint) (h : findMerge cur new b o = some (st, true)) :
+    largestBlock st.chunks ≤ b.bint ∧ st.lbs = largestBlock st.chunks ∧ PosChunks st.chunks ∧
+      st.chunks.length = cur.length :=
+  Dask.Lemmas.RechunkPlan.findMerge_budget cur new b o st hit hpc hpn hlen hb h
+
+/-- the oracle relation `max(divide_to_width(c, w)) ≤ w` used by `findMerge_budget` -/
+theorem imax_divideToWidth_le (d : List Int) (w : Int) (hd : ∀ c ∈ d, 0 ≤ c) (hw : 1 ≤ w) :
+    imax (divideToWidth d w) ≤ w :=
+  Dask.Lemmas.RechunkPlan.imax_divideToWidth_le d w hd hw
+
+/-- `_bound_degree` (after 28665a6), every oracle value: each returned chunking is within the larger
+of its two endpoints -/
+theorem boundDegree_budget (old new : List (List Int)) (dl : Int) (o : BDOracle) :
+    ∀ s ∈ boundDegree old new dl o, largestBlock s ≤ max (largestBlock old) (largestBlock new) :=
+  Dask.Lemmas.RechunkPlan.boundDegree_budget old new dl o
+
+theorem boundDegree_last (old new : List (List Int)) (dl : Int) (o : BDOracle) :
+    (boundDegree old new dl o).getLast? = some new :=
+  Dask.Lemmas.RechunkPlan.boundDegree_last old new dl o
+
+/-- whole plan: merge/split passes and the degree pass, every oracle value with `rel = true` -/
+theorem plan_budget (old new : List (List Int)) (itemsize threshold limBytes dl : Int) (fuel : Nat)
+    (os : List PassOracle) (bos : List BDOracle) (plan : List (List (List Int)))
+    (hit : 0 < itemsize) (hpo : PosChunks old) (hpn : PosChunks new) (hlen : old.length = new.length)
+    (h : planRechunk old new itemsize threshold limBytes dl fuel os bos = some (plan, true)) :
+    ∀ s ∈ plan, largestBlock s ≤ max (max (pyDiv limBytes itemsize) (largestBlock old)) (largestBlock new) :=
+  Dask.Lemmas.RechunkPlan.plan_budget old new itemsize threshold limBytes dl fuel os bos plan hit hpo hpn hlen h
+
+/-! #### non-vacuity: the input that broke the budget before 28665a6 -/
+
+example : boundDegree [[1,3,1],[4,4,6,3]] [[2,3],[6,4,1,5,1]] 3 ⟨2, [[2,4]]⟩ = [[[2,3],[6,4,1,5,1]]] :=
+  Dask.Lemmas.RechunkPlan.ex_boundDegree
+
+example : zipWith3 bdAxis [[1,3,1],[4,4,6,3]] [[2,3],[6,4,1,5,1]] [2, 4] = [[4,1],[6,5,5,1]] ∧
+    largestBlock [[4,1],[6,5,5,1]] = 24 ∧
+    max (largestBlock [[1,3,1],[4,4,6,3]]) (largestBlock [[2,3],[6,4,1,5,1]]) = 18 := by decide
+
+example : ∀ s ∈ boundDegree [[1,3,1],[4,4,6,3]] [[2,3],[6,4,1,5,1]] 3 ⟨2, [[2,4]]⟩, largestBlock s ≤ 18 :=
+  boundDegree_budget _ _ _ _
+
+/-- `find_merge_rechunk` where the else-branch runs (`divide_to_width` with `chunk_limit = 2`):
+old ((1,1,1,1),(2,2)) → new ((4,),(1,1,1,1)), limit 4 B, itemsize 1: result ((2,2),(2,2)), block 4 ≤ 4 -/
+example : findMerge [[1,1,1,1],[2,2]] [[4],[1,1,1,1]] ⟨4, 1, 2, 4⟩ ⟨[0], [2, 0], []⟩ =
+    some (⟨[[2,2],[2,2]], 4, true⟩, true) := by decide
 
 end Dask.Props.C15
